@@ -14,6 +14,16 @@ LEAN_TARGETS = ["PV.C13.Thm"]
 DRIVER = "drv_c13"
 HARNESS = {"bin": "pvh_c13", "features": "default"}
 THEOREMS = [
+    "PV.C13.random_eq_spec",
+    "PV.C13.linear_eq_spec",
+    "PV.C13.linear_eq_spec_monotone",
+    "PV.C13.linear_eq_random",
+    "PV.C13.locateOnly_pure",
+    "PV.C13.linear_requires_order",
+    "PV.C13.classdef_keyword_before_starred_base_fails",
+    "PV.C13.linear_any_order_fails",
+    "PV.C13.validUtf8_lineStartsOk",
+    "PV.C13.codePoints_utf8Encode",
 ]
 TRUSTED = [
     "Lean 4.33.0 kernel; axioms limited to propext, Classical.choice, Quot.sound",
@@ -194,8 +204,31 @@ def oracle(req, out):
     if ws[0] == "trace":
         if out == "wrong-build":
             return "harness build flavour does not match the request"
+        m = re.match(r"ok (\d+) fwd=(true|false)$", out)
+        if not m:
+            return f"the fold did not repeat its recorded call sequence: {out[:80]}"
+        if m.group(2) != "true":
+            bad = _first_not_forward(unhex(ws[3]), ws[4:])
+            return ("the fold drives the forward-only LinearLocator with a history that is not forward "
+                    f"(hypothesis of linear_eq_spec): {bad}")
+        if any(op.endswith("=none") for op in ws[4:]):
+            return "a LinearLocator call panicked on a forward history"
         return None
     return None
+
+
+def _first_not_forward(src, ops):
+    ref = Ref(src)
+    cursor = 3 if ref.bom else 0
+    for i, op in enumerate(ops):
+        k, off = op[0], int(op[1:].split("=")[0])
+        if not ref.in_domain(off):
+            return f"call {i} ({op}) is outside the domain (inside CR LF / a BOM / off a boundary)"
+        if off < cursor:
+            return f"call {i} ({op}) is behind the cursor {cursor}"
+        if k == "l":
+            cursor = off
+    return "?"
 
 
 # ------------------------------------------------------------------ known findings
@@ -284,10 +317,24 @@ def classify(req, impl_out, model_out, failure):
             return K_FCONCAT
         return None
     if ws[0] == "trace":
-        # the model must agree with the implementation on these histories; only the listed shapes
-        # may end in a panic
-        if impl_out != model_out:
+        # only when model and implementation agree and the history is not forward in one of the
+        # listed ways
+        if impl_out != model_out or not re.match(r"ok \d+ fwd=false$", impl_out or ""):
             return None
+        ops = ws[4:]
+        ref = Ref(src)
+        cursor = 3 if ref.bom else 0
+        for i, op in enumerate(ops):
+            k, off = op[0], int(op[1:].split("=")[0])
+            if not ref.in_domain(off):
+                # the only listed out-of-domain shape: the last call, inside a CR LF pair
+                return K_CRLF if (i == len(ops) - 1 and ref.inside_crlf(off) and off >= cursor) else None
+            if off < cursor:
+                if i == len(ops) - 1 and k == "l" and (off - shift) in _class_kw_before_star_offsets(body):
+                    return K_CLASS
+                return None
+            if k == "l":
+                cursor = off
         return None
     return None
 
